@@ -92,7 +92,11 @@ type Ctx struct {
 	True   *Term
 	False  *Term
 	exMemo map[uint64]*Term
+	MaxTerms int // 0 = unlimited; exceeding it panics with TermBudget (callers fail closed)
 }
+
+// TermBudget is the panic value raised when a context grows beyond MaxTerms.
+type TermBudget struct{ N int }
 
 func NewCtx() *Ctx {
 	c := &Ctx{tab: map[string]*Term{}, varIdx: map[string]*Term{}, Apps: map[string][]uint8{}, exMemo: map[uint64]*Term{}}
@@ -114,6 +118,9 @@ func (c *Ctx) mk(op Op, w uint8, cv uint64, name string, args ...*Term) *Term {
 	c.keybuf = b
 	if t, ok := c.tab[string(b)]; ok {
 		return t
+	}
+	if c.MaxTerms > 0 && c.NTerms > c.MaxTerms {
+		panic(TermBudget{c.NTerms})
 	}
 	t := &Term{ID: c.nextID, Op: op, W: w, C: cv, Name: name}
 	if len(args) > 0 {
